@@ -370,7 +370,17 @@ for _ in range(N):
     fcase("g2_getOutputAmount", f"(gmx2_getOutputAmount {O} {fees4} 18 6 {lf(la)} {lf(sa)} {lf(pv)} {lf(sup)} {lf(lp)} {lf(sp)} {lf(gm)}).map {L9}",
           lambda: lp9(EWU.getOutputAmount(cfg, st, gm)))
 
+    # ---- result/metrics/calculator.py: the drawdown scan on a list of Python floats (what `Series.to_list()` hands it)
+    from demeter.result.metrics.calculator import _withdraw_with_high_low, return_value
+    nv = [rng.choice([rf("amt"), rf("amt"), 0.0, rf("neg"), 100.0]) for _ in range(rng.choice([0, 1, 2, 3, 5, 8, 13]))]
+    if rng.random() < 0.3:
+        nv = sorted(nv)
+    fcase("m_withdraw_high_low", f"(metrics_withdraw_with_high_low {O} [{', '.join(lf(x) for x in nv)}]).map (fun r => [r.1, Float.ofInt r.2.1, Float.ofInt r.2.2])",
+          lambda: (lambda r: [float(r[0]), float(r[1]), float(r[2])])(_withdraw_with_high_low(list(nv))))
+    fcase("m_return_value", f"(metrics_return_value {lf(x1)} {lf(x2)}).map (fun r => [r])", lambda: [return_value(x1, x2)])
+
 HEAD = """import Demeter.Gen.PySqueethMarket
+import Demeter.Gen.PyMetricsCalculator
 import Demeter.Gen.PyGmx2ExecuteDepositUtils
 import Demeter.Gen.PyGmx2ExecuteWithdrawUtils
 import Demeter.Gen.PyUniswapCore
